@@ -85,6 +85,12 @@ func VerifyFunction(prog *ssa.Program, db *ContractDB, fn *ssa.Function, fc *Fun
 	for _, p := range fn.Params {
 		v := st.freshValue(p.Name(), p.Type())
 		st.assumeRefs(v)
+		if _, isSlice := p.Type().Underlying().(*types.Slice); isSlice && len(v.L) == 4 {
+			// a slice with capacity points into an array (only the nil slice and empty slices made
+			// from it have a nil base pointer); stated for slice parameters only - as a blanket
+			// fact on every slice value it slowed unrelated arithmetic proofs down a hundredfold
+			st.assume(Implies(Gt(v.L[3], I(0)), Not(Eq(v.L[0], I(0)))))
+		}
 		st.regs[p] = v
 		fv.params[p.Name()] = v
 	}
